@@ -266,3 +266,70 @@ func VerifParseListenAddress(s string) (string, int, bool, error) {
 	addr, err := parseListenAddress(s)
 	return addr.host, addr.port, addr.IsLocal(), err
 }
+
+// ---- chunk list / matcher / merger
+
+// VerifItemBuilder is the item builder core.go uses without --ansi / --with-nth.
+func VerifItemBuilder() ItemBuilder {
+	var itemIndex int32
+	return func(item *Item, data []byte) bool {
+		item.text = util.ToChars(data)
+		item.text.Index = itemIndex
+		itemIndex++
+		return true
+	}
+}
+
+func VerifChunkItems(c *Chunk) []*Item {
+	out := make([]*Item, c.count)
+	for i := 0; i < c.count; i++ {
+		out[i] = &c.items[i]
+	}
+	return out
+}
+
+func VerifItemIndex(item *Item) int32 { return item.Index() }
+
+// VerifPatternBuilder mirrors the closure in core.go (one pattern cache per builder).
+func VerifPatternBuilder(cache *ChunkCache, fuzzy bool, fuzzyAlgo int, extended bool, caseMode Case, normalize bool,
+	forward bool, withPos bool, cacheable bool) func([]rune) *Pattern {
+	algoFn := algo.FuzzyMatchV2
+	if fuzzyAlgo == 1 {
+		algoFn = algo.FuzzyMatchV1
+	}
+	patternCache := make(map[string]*Pattern)
+	return func(runes []rune) *Pattern {
+		return BuildPattern(cache, patternCache, fuzzy, algoFn, extended, caseMode, normalize, forward, withPos,
+			cacheable, nil, Delimiter{}, revision{}, runes, nil)
+	}
+}
+
+func VerifNewMatcher(cache *ChunkCache, patternBuilder func([]rune) *Pattern, sort bool, tac bool, eventBox *util.EventBox, partitions int) *Matcher {
+	m := NewMatcher(cache, patternBuilder, sort, tac, eventBox, revision{})
+	if partitions > 0 {
+		m.partitions = partitions
+		m.slab = make([]*util.Slab, partitions)
+	}
+	return m
+}
+
+func VerifMatcherReset(m *Matcher, chunks []*Chunk, query string, cancel bool, final bool, sort bool, revMajor int, revMinor int) {
+	m.Reset(chunks, []rune(query), cancel, final, sort, revision{revMajor, revMinor})
+}
+
+func VerifMatcherScan(m *Matcher, chunks []*Chunk, pattern *Pattern) (*Merger, bool) {
+	return m.scan(MatchRequest{chunks: chunks, pattern: pattern})
+}
+
+func VerifMergerFinal(mg *Merger) bool { return mg.final }
+
+func VerifMergerQuery(mg *Merger) string {
+	if mg.pattern == nil {
+		return ""
+	}
+	return mg.pattern.AsString()
+}
+
+func VerifMergerItem(mg *Merger, idx int) *Item { return mg.Get(idx).item }
+
+func VerifMergerFindIndex(mg *Merger, itemIndex int32) int { return mg.FindIndex(itemIndex) }
